@@ -44,12 +44,16 @@ def setup(ctx):
 # ---------------------------------------------------------------------------------------
 def sense_strategy():
     def fixed(t):
-        key, asc, ascq, deferred, valid, extra, noise = t
-        b = R.sense_fixed(key, asc, ascq, deferred=deferred, valid=valid, length=18 + extra)
+        key, asc, ascq, deferred, valid, extra, noise, pad = t
+        # 14..17 byte sense (ADDITIONAL SENSE LENGTH 6..9: ASCQ is the last or nearly last byte) one time in three
+        b = R.sense_fixed(key, asc, ascq, deferred=deferred, valid=valid,
+                          length=14 + extra % 4 if extra % 3 == 0 else 18 + extra)
         for i, x in enumerate(noise):
             pos = (3, 4, 5, 6, 8, 9, 10, 11, 14)[i % 9]
-            b[pos] = x
-        return bytes(b)
+            if pos < len(b):
+                b[pos] = x
+        # the transport's sense buffer may be longer than the sense data the target sent
+        return bytes(b) + bytes(pad)
 
     def desc(t):
         key, asc, ascq, deferred, descs = t
@@ -63,7 +67,7 @@ def sense_strategy():
     return st.one_of(
         short,
         st.tuples(st.integers(0, 15), byte, byte, st.booleans(), st.integers(0, 1), st.integers(0, 234),
-                  st.binary(max_size=9)).map(fixed),
+                  st.binary(max_size=9), st.sampled_from([0, 0, 0, 4, 18])).map(fixed),
         st.tuples(st.integers(0, 15), byte, byte, st.booleans(),
                   st.lists(st.tuples(st.sampled_from([0, 1, 2, 3, 4, 5, 9, 0x0A, 0x80]), st.binary(min_size=2, max_size=14)),
                            max_size=4)).map(desc),
